@@ -202,6 +202,57 @@ pub async fn run_case(c: Case) -> Result<CaseInfo, Failure> {
     Ok(info)
 }
 
+/// A PUBLISH that is dropped because the connection is already closed (handle_qos_after_disconnect) still binds its
+/// alias: a later alias-only PUBLISH that is handled must resolve to it.
+pub async fn run_after_close(rebind: bool) -> Result<CaseInfo, Failure> {
+    let ff = |rule: &str, detail: String| Failure::new(rule, format!("C17/v5-server/{rule}"), detail);
+    let mut cfg = Cfg5 { max_topic_alias: 4, handle_qos_after_disconnect: Some(0), ..Default::default() };
+    cfg.connect.topic_alias_max = Some(4);
+    let eut = Eut5::start_server(&cfg).await;
+    eut.handshake(&cfg).await;
+    let app = eut.app.clone();
+    // the handler of the first publish closes the connection as soon as it is entered: the publishes pipelined behind
+    // it are decoded on a connection that is already closed
+    let sink = eut.sink();
+    *app.on_pub_enter.borrow_mut() = Some(Rc::new(move |seq: u32| {
+        if seq == 0 {
+            if let Some(s) = &sink {
+                s.force_close();
+            }
+        }
+    }));
+    // one write: QoS 0 bind alias 1 -> t/a (handled, gated); QoS 1 with topic t/b and alias 1 or 2 (dropped after the close);
+    // QoS 0 alias-only (handled after the close)
+    let alias2 = if rebind { 1 } else { 2 };
+    let mut bytes = enc_pub(&s5::Publish5 { topic: "t/a".into(), topic_alias: Some(1), payload_len: 1, ..Default::default() }, &[1]);
+    bytes.extend(enc_pub(&s5::Publish5 { topic: "t/b".into(), topic_alias: Some(alias2), qos: 1, pid: Some(7), payload_len: 1, ..Default::default() }, &[2]));
+    bytes.extend(enc_pub(&s5::Publish5 { topic: String::new(), topic_alias: Some(alias2), payload_len: 1, ..Default::default() }, &[3]));
+    eut.peer.send(&bytes);
+    eut.settle().await;
+    app.open_all();
+    eut.settle().await;
+    let enters = app.pub_enters();
+    let topics: Vec<String> = enters.iter().map(|(_, s)| s.topic.clone()).collect();
+    // the QoS 1 publish is dropped (only QoS 0 is handled after the close); if the alias-only one is handled it is t/b
+    let handled_alias_only = enters.iter().skip(1).find(|(_, s)| s.qos == 0);
+    let mut info = CaseInfo::trivial();
+    if let Some((_, seen)) = handled_alias_only {
+        if seen.topic != "t/b" {
+            return Err(Failure::new(
+                "wrong-topic-after-close",
+                "C17/v5-server/wrong-topic-after-close".to_owned(),
+                format!("alias {alias2} was (re)bound to t/b by a PUBLISH that was dropped after the application closed the connection; the alias-only PUBLISH handled afterwards saw {:?}; handlers saw {topics:?}", seen.topic),
+            ));
+        }
+        info = CaseInfo::nontrivial(&("after-close", rebind)).label("alias-only-resolved-after-close");
+    } else if app.stops().iter().any(|s| matches!(s, StopKind::Protocol(p) if p.contains("alias"))) {
+        return Err(ff("wrong-topic-after-close", format!("alias {alias2} bound by a dropped PUBLISH was reported unknown: {:?}; handlers saw {topics:?}", app.stops())));
+    }
+    eut.peer.close();
+    eut.settle().await;
+    Ok(info)
+}
+
 fn pub_strategy() -> BoxedStrategy<Pub> {
     (0u8..2, prop_oneof![1 => Just(Form::TopicOnly), 3 => Just(Form::Bind), 3 => Just(Form::Use)], 0u8..3, 0u8..4, 0u8..2)
         .prop_map(|(conn, form, topic, alias, qos)| Pub { conn, form, topic, alias, qos })
@@ -258,6 +309,11 @@ pub fn check_case(c: &Case) -> Result<CaseInfo, Failure> {
 
 pub fn run(ctx: &Ctx, started: Instant) -> i32 {
     let mut stats = exhaustive(ctx);
+    {
+        let mut st = Stats::default();
+        run_list_bed("C17", vec![false, true], &mut st, |r| json!({"after_close": r}), run_after_close);
+        stats.merge(st);
+    }
     let per_shard = ctx.tier.pick(1_500u32, 30_000);
     let rnd = par_shards(WORKERS, |shard| {
         let mut st = Stats::default();
@@ -269,7 +325,7 @@ pub fn run(ctx: &Ctx, started: Instant) -> i32 {
         level: "exploration",
         rule: "exhaustive: every history of <=3 (thorough <=4) publishes on one connection over {topic only, bind, use} x topics {t/a,t/b} x aliases {1, max, max+1} for server (plain, max 2; router, max 16) and client \
                (unrouted, CONNECT max 2; ClientRouter, max 32); random: 1..10 publishes over 3 topics x aliases {1,2,max,max+1} x QoS 0/1 interleaved on two connections of one server factory, Topic Alias Maximum {0,2,16} \
-               (client {0,2,16,32}), with and without router. Model: per-connection alias map; handler must see the resolved topic and the route the resolved topic selects; unbound / above-maximum aliases end the \
+               (client {0,2,16,32}), with and without router; plus: alias bound or rebound by a PUBLISH that is dropped after the application closed the connection (handle_qos_after_disconnect), then used. Model: per-connection alias map; handler must see the resolved topic and the route the resolved topic selects; unbound / above-maximum aliases end the \
                connection with a protocol error and never reach a handler. Non-trivial = an alias-only publish after a binding, a rebind, or traffic on both connections; distinct = (role, router, max, per-publish (conn, form, ok))"
             .into(),
         exhaustive: true,
@@ -281,6 +337,9 @@ pub fn run(ctx: &Ctx, started: Instant) -> i32 {
 
 pub fn replay(path: &str) -> i32 {
     let case = super::load_case(path);
+    if let Some(r) = case["after_close"].as_bool() {
+        return super::report_replay("C17", path, Ok(run_isolated("C17", r, &run_after_close)));
+    }
     let res = serde_json::from_value::<Case>(case["case"].clone()).map_err(|e| e.to_string()).map(|c| check_case(&c));
     super::report_replay("C17", path, res)
 }
